@@ -3,6 +3,7 @@ import Swim.Model.Verify
 import Swim.Drv.Merge
 import Swim.Drv.Msgpack
 import Swim.Gen.Facts
+import Swim.Model.Codec
 /-! Driver side of the C09 correspondences. -/
 namespace Swim.Drv.C09
 open Swim.Parse Swim.Verify
@@ -177,8 +178,33 @@ def handleMulti (fs : List (String × String)) : String := Id.run do
   let want := if jveto then 0 else parts.length
   return verdict (joined == want && bad.isNone) bad (parts.length ≥ 2) s!"multi-{parts.length}-jveto{if jveto then 1 else 0}" (if joined == want then "" else s!"model-joined={want}")
 
+/-- a join between a keyed host and a joiner with the same / another key and label: admitted iff the model's
+`sealedStreamAdmitted`; a refused exchange leaves both member lists as they were, an admitted one is mutual -/
+def handleAuth (fs : List (String × String)) : String := Id.run do
+  let some hl := (get fs "hl").bind hexBytes | return "PARSE hl"
+  let some jl := (get fs "jl").bind hexBytes | return "PARSE jl"
+  let skip := getD fs "skip" "0" == "1"
+  let sameKey := getD fs "samekey" "0" == "1"
+  let res := getD fs "res" "?"
+  let admitted := Swim.Codec.sealedStreamAdmitted hl skip jl jl sameKey
+  let has (l : String) (n : String) := (l.splitOn "+").contains n
+  let hostPost := getD fs "hostpost" ""
+  let joinPost := getD fs "joinpost" ""
+  let changed := hostPost != getD fs "hostpre" "" || joinPost != getD fs "joinpre" ""
+  let agree := (res == "ok") == admitted
+  let bad : Option String :=
+    if res != "ok" && res != "err" then some s!"host-handler-never-returned:{res}"
+    else if res == "ok" && !admitted then
+      some s!"exchange-sealed-for-another-label-or-key-was-admitted:skip={skip}:samekey={sameKey}"
+    else if !admitted && changed then some "refused-exchange-changed-a-member-list"
+    else if admitted && res == "ok" && !(has hostPost "J" && has joinPost "H") then some "admitted-join-is-not-mutual"
+    else none
+  return s!"{if agree then "agree" else "DISAGREE"} {match bad with | none => "ok" | some b => "BAD:" ++ b} nt={if !hl.isEmpty || !jl.isEmpty then 1 else 0} br=auth-{if admitted then "admitted" else "refused"}-skip{if skip then 1 else 0} "
+
 def handle (kind : String) (fs : List (String × String)) : String :=
   match kind with
+  | "auth" => handleAuth fs
+  | "hist" => Swim.Drv.Merge.handle "C06" kind fs
   | "vp" => handleVp fs
   | "adm" => handleAdm fs
   | "join" => handleJoin fs
